@@ -205,3 +205,27 @@ def dump_files(case, note):
             note.label('cli')
     classify(dc, note)
     note.label('format%d' % fi)
+
+
+# ---------------------------------------------------------------------------
+# coverage-guided bytes (atheris), thorough tier
+# ---------------------------------------------------------------------------
+
+@PROP.custom('coverage-guided')
+def coverage_guided(ctx):
+    from .. import fuzz
+    from ..core import FacetResult
+    if ctx.tier == 'quick':
+        r = FacetResult('coverage-guided')
+        r.notes.append('coverage-guided campaign runs in the thorough tier only')
+        return r
+    corpus = [b'\x00' * 8 + D.HEADER_START + n.encode() + b' ' * 8 + b'\x00' * 4 + (60).to_bytes(4, 'big') + b'\x00' * 8
+              for n in D.BUFFER_NAMES]
+    corpus.append(b''.join(corpus[:3]))
+    return fuzz.campaign('coverage-guided', 'dump', corpus, runs=150000, seed=ctx.seed, jobs=4, max_len=512,
+                         sig_prefix='C17.fuzz')
+
+
+def replay_coverage_guided(case):
+    from ..core import Note
+    check_dump(case['data'], Note())
